@@ -8,4 +8,3 @@ import XzVerif.Props.C04
 #print axioms Props.C04.C04_source_readUvarint
 #print axioms Props.C04.C04_source_padLen
 #print axioms Props.C04.C04_source_size_fields_and_records
-#print axioms Props.C04.C04_source_translation_complete
